@@ -471,8 +471,232 @@ def item_registry(repo):
             'def registryShapeChecked : Bool := true\n')
 
 
+ELIG = [
+    (r'matches!\(peer_info\.affinity, PeerAffinity::High\)', 'isHigh'),
+    (r'peer_info\.peer_id != self\.endpoint\.peer_id\(\)', 'notSelf'),
+    (r'!peer_info\.address\.is_empty\(\)', 'hasAddress'),
+    (r'!active_peers\.contains\(&peer_info\.peer_id\)', 'notConnected'),
+    (r'!self\.pending_dials\.contains_key\(&peer_info\.peer_id\)', 'noPendingDial'),
+    (r'self\.dial_backoff_states \.get\(&peer_info\.peer_id\) \.map\(\|state\| now > state\.backoff\) \.unwrap_or\(true\)', 'pastBackoffStrict'),
+    (r'self\.dial_backoff_states \.get\(&peer_info\.peer_id\) \.map\(\|state\| now >= state\.backoff\) \.unwrap_or\(true\)', 'pastBackoffLax'),
+]
+
+
+def item_tick(repo):
+    """the connectivity check (C13): eligibility clauses, dial budget, backoff bookkeeping, address rotation"""
+    cm = strip_comments(read(repo, 'crates/anemo/src/network/connection_manager.rs'))
+    f = flat(strip_hooks(block_after(cm, r'fn\s+handle_connectivity_check\s*\(\s*&mut self, now: std::time::Instant\s*\)')))
+    m = re.search(r'\.filter\(\|peer_info\| \{ (.*?) \}\) \.cloned\(\) \.collect\(\)', f)
+    if not m:
+        raise ValueError('tick: eligibility filter')
+    clauses = []
+    for c in [x.strip() for x in m.group(1).split('&&')]:
+        for pat, name in ELIG:
+            if re.fullmatch(pat, c):
+                clauses.append(name)
+                break
+        else:
+            raise ValueError('tick: unrecognised eligibility clause `' + c[:100] + '`')
+    if 'let known_peers = self.known_peers.inner(); known_peers .values() .filter' not in f.replace('  ', ' '):
+        raise ValueError('tick: candidates are not the known-peer table')
+    b = re.search(r'let number_to_dial = std::cmp::min\( eligible\.len\(\), self\.config \.max_concurrent_outstanding_connecting_connections\(\) \.saturating_sub\(self\.(\w+)\.len\(\)\), ?\);', f)
+    if not b or b.group(1) not in ('pending_connections', 'pending_dials'):
+        raise ValueError('tick: dial budget')
+    budget = 'pendingConnections' if b.group(1) == 'pending_connections' else 'pendingDials'
+    if 'for mut peer in eligible.into_iter().take(number_to_dial) {' not in f:
+        raise ValueError('tick: take(number_to_dial)')
+    idx = re.search(r'let idx = self \.dial_backoff_states \.get\(&peer\.peer_id\) \.map\(\|state\| state\.attempts\) \.unwrap_or\(0\) % peer\.address\.len\(\); let address = peer\.address\.remove\(idx\); self\.dial_peer\(address, Some\(peer\.peer_id\), sender\); self\.pending_dials\.insert\(peer\.peer_id, receiver\);', f)
+    ok_arm = re.search(r'Ok\(Ok\(returned_peer_id\)\) => \{ (?:debug_assert_eq!\(peer_id, &returned_peer_id\); )?self\.dial_backoff_states\.remove\(peer_id\); false \}', f)
+    args = r'\( now, self\.config\.connection_backoff\(\), self\.config\.max_connection_backoff\(\), ?\)'
+    fail_arm = re.search(r'Ok\(Err\(_\)\) => \{ match self\.dial_backoff_states\.entry\(\*peer_id\) \{ Entry::Occupied\(mut entry\) => \{ entry\.get_mut\(\)\.update' + args + r'; \} Entry::Vacant\(entry\) => \{ entry\.insert\(DialBackoffState::new' + args + r'\); \} \} false \}', f)
+    empty_arm = 'Err(oneshot::error::TryRecvError::Empty) => true' in f
+    bs = flat(block_after(cm, r'impl\s+DialBackoffState\s*\{'))
+    new_ok = re.search(r'fn new\( now: std::time::Instant, backoff_step: std::time::Duration, max_backoff: std::time::Duration, ?\) -> Self \{ let mut state = Self \{ backoff: now, attempts: 0, ?\}; state\.update\(now, backoff_step, max_backoff\); state \}', bs)
+    upd_ok = re.search(r'fn update\( &mut self, now: std::time::Instant, backoff_step: std::time::Duration, max_backoff: std::time::Duration, ?\) \{ self\.attempts \+= 1; let backoff_duration = std::cmp::min\( max_backoff, backoff_step\.saturating_mul\(self\.attempts\.try_into\(\)\.unwrap_or\(u32::MAX\)\), ?\); self\.backoff = now \+ backoff_duration; \}', bs)
+    # the check is driven by a fixed-period interval, not by a timer that other events restart
+    st = flat(strip_hooks(block_after(cm, r'pub\s+async\s+fn\s+start\s*\(\s*mut\s+self\s*\)')))
+    interval_ok = bool(re.search(r'let mut interval = tokio::time::interval\(self\.config\.connectivity_check_interval\(\) \+ jitter\);', st)) and bool(re.search(r'now = interval\.tick\(\) => \{ self\.handle_connectivity_check\(now\.into_std\(\)\); \}', st))
+    bl = lambda x: 'true' if x else 'false'
+    return ('def eligibleClausesGen : List EligClause := [' + ', '.join('.' + c for c in clauses) + ']\n'
+            f'def budgetMinusGen : BudgetArg := .{budget}\n'
+            f'def addressRotationGen : Bool := {bl(idx)}\n'
+            f'def successClearsBackoffGen : Bool := {bl(ok_arm)}\n'
+            f'def failureUpdatesBackoffGen : Bool := {bl(fail_arm and empty_arm)}\n'
+            f'def backoffFormulaGen : Bool := {bl(new_ok and upd_ok)}\n'
+            f'def fixedPeriodTickGen : Bool := {bl(interval_ok)}\n')
+
+
+def split_stmts(body):
+    """top-level statements of a (flattened) block"""
+    out, depth, cur = [], 0, ''
+    n = len(body)
+    for i, ch in enumerate(body):
+        if ch in '({[':
+            depth += 1
+        elif ch in ')}]':
+            depth -= 1
+        if ch == ';' and depth == 0:
+            if cur.strip():
+                out.append(cur.strip())
+            cur = ''
+            continue
+        cur += ch
+        if ch == '}' and depth == 0 and re.match(r'(if|match|for|while|loop)\b', cur.strip()):
+            rest = body[i + 1:].lstrip()
+            if rest and not re.match(r'(else\b|\.|\?|;)', rest):
+                out.append(cur.strip())
+                cur = ''
+    if cur.strip():
+        out.append(cur.strip())
+    return out
+
+
+SERVE = [
+    (r'let mut request = read_request\(&mut self\.recv_stream\)\.await\?', 'readRequest'),
+    (r'request\.extensions_mut\(\)\.insert\(self\.connection\.peer_id\(\)\)', 'stampPeerId'),
+    (r'request\.extensions_mut\(\)\.insert\(self\.connection\.origin\(\)\)', 'stampOrigin'),
+    (r'request \.extensions_mut\(\) \.insert\(self\.connection\.remote_address\(\)\)', 'stampRemoteAddr'),
+    (r'request\.extensions_mut\(\)\.insert\(crate::Direction::Inbound\)', 'stampInbound'),
+    (r'let response = \{ let handler = self\.service\.oneshot\(request\); let stopped = self\.send_stream\.get_mut\(\)\.stopped\(\); tokio::select! \{ response = handler => response\.expect\("Infallible"\), _ = stopped => return Err\(anyhow::anyhow!\("send_stream closed by remote"\)\), \} \}', 'raceHandlerWithStop'),
+    (r'write_response\(&mut self\.send_stream, response\)\.await\?', 'writeResponse'),
+    (r'self\.send_stream\.get_mut\(\)\.finish\(\)\?', 'finishSend'),
+    (r'self\.send_stream\.get_mut\(\)\.stopped\(\)\.await\?', 'awaitStopped'),
+    (r'Ok\(\(\)\)', 'returnOk'),
+]
+CALL = [
+    (r'let \(send_stream, recv_stream\) = self\.connection\.open_bi\(\)\.await\?', 'openBi'),
+    (r'let mut send_stream = FramedWrite::new\(send_stream, network_message_frame_codec\(&self\.config\)\)', 'frameSend'),
+    (r'let mut recv_stream = FramedRead::new\(recv_stream, network_message_frame_codec\(&self\.config\)\)', 'frameRecv'),
+    (r'write_request\(&mut send_stream, request\)\.await\?', 'writeRequest'),
+    (r'send_stream\.get_mut\(\)\.finish\(\)\?', 'finishSend'),
+    (r'let mut response = read_response\(&mut recv_stream\)\.await\?', 'readResponse'),
+    (r'response\.extensions_mut\(\)\.insert\(self\.peer_id\(\)\)', 'stampResponsePeerId'),
+    (r'Ok\(response\)', 'returnResponse'),
+]
+
+
+def steps(body, table, what):
+    out = []
+    for st in split_stmts(flat(strip_hooks(body))):
+        for pat, name in table:
+            if re.fullmatch(pat, st):
+                out.append(name)
+                break
+        else:
+            raise ValueError(f'rpcpath: {what}: unrecognised statement `{st[:110]}`')
+    return out
+
+
+def item_rpcpath(repo):
+    """how one RPC is served and issued (C02, C06, C12, C01): the statement sequences of
+    BiStreamRequestHandler::do_handle and Peer::do_rpc, and the shapes around them"""
+    rh = strip_comments(read(repo, 'crates/anemo/src/network/request_handler.rs'))
+    pe = strip_comments(read(repo, 'crates/anemo/src/network/peer.rs'))
+    nm = strip_comments(read(repo, 'crates/anemo/src/network/mod.rs'))
+    serve = steps(block_after(rh, r'async\s+fn\s+do_handle\s*\(\s*mut\s+self\s*\)\s*->\s*Result<\(\)>'), SERVE, 'do_handle')
+    call = steps(block_after(pe, r'async\s+fn\s+do_rpc\s*\(\s*&self, request: Request<Bytes>\s*\)\s*->\s*Result<Response<Bytes>>'), CALL, 'do_rpc')
+    hb = flat(block_after(rh, r'async\s+fn\s+handle\s*\(\s*self\s*\)'))
+    if not re.fullmatch(r'if let Err\(e\) = self\.do_handle\(\)\.await \{ (trace|debug)!\([^;]*\); \}', hb):
+        raise ValueError('rpcpath: BiStreamRequestHandler::handle: ' + hb[:120])
+    # the accept loop: uni streams dropped, a task per bi stream, datagrams ignored
+    st = flat(re.sub(r'#\s*\[cfg\(bmwill_anemo_verif\)\]\s*crate::verif::point(_ctx)?\([^;]*\);', '', block_after(rh, r'pub\s+async\s+fn\s+start\s*\(\s*self\s*\)')))
+    if not re.search(r'uni = self\.connection\.accept_uni\(\) => \{ match uni \{ Ok\(recv_stream\) => trace!\("[^"]*", recv_stream\.id\(\)\), Err\(e\) => \{ trace!\("[^"]*"\); break e; \} \} \}', st):
+        raise ValueError('rpcpath: accept loop, uni-stream arm (the stream must simply be dropped)')
+    if not re.search(r'bi = self\.connection\.accept_bi\(\) => \{ match bi \{ Ok\(\(bi_tx, bi_rx\)\) => \{ trace!\("[^"]*", bi_tx\.id\(\)\); let request_handler = BiStreamRequestHandler::new\(&self\.config, self\.connection\.clone\(\), self\.service\.clone\(\), bi_tx, bi_rx\); inflight_requests\.spawn\(request_handler\.handle\(\)\); \} Err\(e\) => \{ trace!\("[^"]*"\); break e; \} \} \}', st):
+        raise ValueError('rpcpath: accept loop, bi-stream arm')
+    if not re.search(r'datagram = self\.connection\.read_datagram\(\) => \{ match datagram \{ Ok\(datagram\) => trace!\("[^"]*", datagram\.len\(\)\), Err\(e\) => \{ trace!\("[^"]*"\); break e; \} \} \}', st):
+        raise ValueError('rpcpath: accept loop, datagram arm')
+    # Network::rpc: one lookup, one call, no retry
+    nr = flat(block_after(nm, r'async\s+fn\s+rpc\s*\(\s*&self, peer_id: PeerId, request: Request<Bytes>\s*\)\s*->\s*Result<Response<Bytes>>'))
+    if not re.fullmatch(r'self\.peer\(peer_id\) \.ok_or_else\(\|\| anyhow!\("not connected to peer \{peer_id\}"\)\)\? \.rpc\(request\) \.await', nr):
+        raise ValueError('rpcpath: NetworkInner::rpc: ' + nr[:160])
+    pc = flat(block_after(pe, r'fn\s+call\s*\(\s*&mut self, mut request: Request<Bytes>\s*\)\s*->\s*Self::Future'))
+    if not re.fullmatch(r'request\.extensions_mut\(\)\.insert\(self\.peer_id\(\)\); request\.extensions_mut\(\)\.insert\(crate::Direction::Outbound\); let peer = self\.clone\(\); let inner = tower::service_fn\(move \|request\| \{ let peer = peer\.clone\(\); async move \{ peer\.do_rpc\(request\)\.await \} \}\) \.boxed\(\); let mut service = self\.outbound_request_layer\.layer\(inner\); service\.call\(request\)', pc):
+        raise ValueError('rpcpath: Peer::call: ' + pc[:200])
+    L = lambda xs: '[' + ', '.join('.' + x for x in xs) + ']'
+    return (f'def serveStepsGen : List RpcStep := {L(serve)}\n'
+            f'def callStepsGen : List RpcStep := {L(call)}\n'
+            'def rpcPathShapeChecked : Bool := true\n')
+
+
+def impl_block(src, header_re):
+    return block_after(src, header_re)
+
+
+TLS_CLIENT_CERT = [
+    (r'let \(cert, chain, trustroots\) = prepare_for_self_signed\(end_entity, intermediates\)\?', 'selfSignedAnchor'),
+    (r'let verified_cert = cert \.verify_for_usage\( SUPPORTED_SIG_ALGS, &trustroots, chain, now, webpki::KeyUsage::client_auth\(\), None, None, ?\) \.map_err\(pki_error\)\?', 'verifyChainEd25519'),
+    (r'let subject_name_refs = self \.server_names \.iter\(\) \.map\(\|name\| ServerName::try_from\(name\.as_str\(\)\)\) \.collect::<Result<Vec<_>, _>>\(\) \.map_err\(\|_\| rustls::Error::UnsupportedNameType\)\?', 'parseAcceptedNames'),
+    (r'if subject_name_refs\.into_iter\(\)\.any\(\|name\| \{ verified_cert \.end_entity\(\) \.verify_is_valid_for_subject_name\(&name\) \.is_ok\(\) \}\) \{ Ok\(ClientCertVerified::assertion\(\)\) \} else \{ Err\(rustls::Error::General\("no valid subject name"\.into\(\)\)\) \}', 'certValidForAnAcceptedName'),
+]
+TLS_SERVER_CERT = [
+    (r'let \(cert, chain, trustroots\) = prepare_for_self_signed\(end_entity, intermediates\)\?', 'selfSignedAnchor'),
+    (r'let dns_name = match server_name \{ ServerName::DnsName\(dns_name\) => dns_name, _ => return Err\(rustls::Error::UnsupportedNameType\), \}', 'dialedNameIsDns'),
+    (r'self\.server_names \.iter\(\) \.find\(\|name\| name\.as_str\(\) == dns_name\.as_ref\(\)\) \.ok_or\(rustls::Error::UnsupportedNameType\)\?', 'dialedNameIsOwn'),
+    (r'let verified_cert = cert \.verify_for_usage\( SUPPORTED_SIG_ALGS, &trustroots, chain, now, webpki::KeyUsage::server_auth\(\), None, None, ?\) \.map_err\(pki_error\)\?', 'verifyChainEd25519'),
+    (r'verified_cert \.end_entity\(\) \.verify_is_valid_for_subject_name\(server_name\) \.map_err\(pki_error\) \.map\(\|_\| ServerCertVerified::assertion\(\)\)', 'certValidForDialedName'),
+]
+TLS_PINNED = [
+    (r'let peer_id = peer_id_from_certificate\(end_entity\)\?', 'identityOfEndEntity'),
+    (r'if peer_id != self\.1 \{ return Err\(.*\); \}', 'pinMustMatch'),
+    (r'self\.0 \.verify_server_cert\(end_entity, intermediates, server_name, ocsp_response, now\)', 'delegateToCertVerifier'),
+]
+
+
+def tls_steps(body, table, what):
+    out = []
+    for st in split_stmts(flat(body)):
+        for pat, name in table:
+            if re.fullmatch(pat, st):
+                out.append(name)
+                break
+        else:
+            raise ValueError(f'tls: {what}: unrecognised statement `{st[:110]}`')
+    return out
+
+
+def item_tls(repo):
+    """the certificate verifiers (C01, C03, C14): the statement sequences of the three `verify_*_cert`
+    functions, the handshake-signature checks, the algorithm table, mandatory client authentication"""
+    c = strip_comments(read(repo, 'crates/anemo/src/crypto.rs'))
+    cut = c.find('#[cfg(bmwill_anemo_verif)]\npub mod verif')
+    if cut > 0:
+        c = c[:cut]
+    f = flat(c)
+    if 'static SUPPORTED_SIG_ALGS: &[&dyn SignatureVerificationAlgorithm] = &[webpki::ring::ED25519];' not in f:
+        raise ValueError('tls: SUPPORTED_SIG_ALGS')
+    if 'static SUPPORTED_ALGORITHMS: WebPkiSupportedAlgorithms = WebPkiSupportedAlgorithms { all: SUPPORTED_SIG_ALGS, mapping: &[(rustls::SignatureScheme::ED25519, SUPPORTED_SIG_ALGS)], };' not in f:
+        raise ValueError('tls: SUPPORTED_ALGORITHMS')
+    cc = impl_block(c, r'impl\s+ClientCertVerifier\s+for\s+CertVerifier\s*\{')
+    sc = impl_block(c, r'impl\s+ServerCertVerifier\s+for\s+CertVerifier\s*\{')
+    ec = impl_block(c, r'impl\s+ServerCertVerifier\s+for\s+ExpectedCertVerifier\s*\{')
+    for blk, nm in [(cc, 'client'), (sc, 'server'), (ec, 'pinned')]:
+        for ver in ['12', '13']:
+            b = flat(block_after(blk, r'fn\s+verify_tls' + ver + r'_signature\s*\('))
+            if b != f'rustls::crypto::verify_tls{ver}_signature(message, cert, dss, &SUPPORTED_ALGORITHMS)':
+                raise ValueError(f'tls: {nm} verify_tls{ver}_signature: ' + b[:120])
+        if flat(block_after(blk, r'fn\s+supported_verify_schemes\s*\(')) != 'SUPPORTED_ALGORITHMS.supported_schemes()':
+            raise ValueError(f'tls: {nm} supported_verify_schemes')
+    if flat(block_after(cc, r'fn\s+offer_client_auth\s*\(')) != 'true' or flat(block_after(cc, r'fn\s+client_auth_mandatory\s*\(')) != 'true':
+        raise ValueError('tls: client authentication must be offered and mandatory')
+    client = tls_steps(block_after(cc, r'fn\s+verify_client_cert\s*\('), TLS_CLIENT_CERT, 'verify_client_cert')
+    server = tls_steps(block_after(sc, r'fn\s+verify_server_cert\s*\('), TLS_SERVER_CERT, 'verify_server_cert')
+    pinned = tls_steps(block_after(ec, r'fn\s+verify_server_cert\s*\('), TLS_PINNED, 'pinned verify_server_cert')
+    pf = flat(block_after(c, r'fn\s+prepare_for_self_signed<\'a>\s*\('))
+    if pf != 'let cert = webpki::EndEntityCert::try_from(end_entity).map_err(pki_error)?; let root = webpki::anchor_from_trusted_cert(end_entity).map_err(pki_error)?; Ok((cert, intermediates, vec![root]))':
+        raise ValueError('tls: prepare_for_self_signed: ' + pf[:160])
+    pid = flat(block_after(c, r'fn\s+peer_id_from_certificate\s*\('))
+    if not re.fullmatch(r'use x509_parser::\{certificate::X509Certificate, prelude::FromDer\}; let cert = X509Certificate::from_der\(certificate\.as_ref\(\)\) \.map_err\(.*?\)\?; let spki = cert\.1\.public_key\(\); let public_key_bytes = <ed25519::pkcs8::PublicKeyBytes as pkcs8::DecodePublicKey>::from_public_key_der\(spki\.raw\) \.map_err\(.*?\)\?; let peer_id = PeerId\(public_key_bytes\.to_bytes\(\)\); Ok\(peer_id\)', pid):
+        raise ValueError('tls: peer_id_from_certificate')
+    L = lambda xs: '[' + ', '.join('.' + x for x in xs) + ']'
+    return (f'def verifyClientCertGen : List TlsStep := {L(client)}\n'
+            f'def verifyServerCertGen : List TlsStep := {L(server)}\n'
+            f'def verifyPinnedServerCertGen : List TlsStep := {L(pinned)}\n'
+            'def tlsShapeChecked : Bool := true\n')
+
+
 ITEMS = [('ANEMO', item_anemo), ('Version', item_version), ('StatusCode', item_status),
-         ('headers', item_headers), ('ConfigDefaults', item_config), ('tieBreak', item_tiebreak), ('codegen', item_codegen), ('admit', item_admit), ('life', item_life), ('registry', item_registry)]
+         ('headers', item_headers), ('ConfigDefaults', item_config), ('tieBreak', item_tiebreak), ('codegen', item_codegen), ('admit', item_admit), ('life', item_life), ('registry', item_registry), ('tick', item_tick), ('rpcpath', item_rpcpath), ('tls', item_tls)]
 
 HEADER = '''/- GENERATED by /verif/tools/gen.py from /repo's working tree on every run -- do not edit. -/
 import AnemoModel.Basic
@@ -487,6 +711,30 @@ inductive Affinity where
   | high
   | allowed
   | never
+  deriving DecidableEq, Repr, Inhabited
+
+/-- the steps of the certificate verifiers, in source order -/
+inductive TlsStep where
+  | selfSignedAnchor | verifyChainEd25519 | parseAcceptedNames | certValidForAnAcceptedName
+  | dialedNameIsDns | dialedNameIsOwn | certValidForDialedName
+  | identityOfEndEntity | pinMustMatch | delegateToCertVerifier
+  deriving DecidableEq, Repr, Inhabited
+
+/-- the steps of serving one request (`do_handle`) and of issuing one (`do_rpc`), in source order -/
+inductive RpcStep where
+  | readRequest | stampPeerId | stampOrigin | stampRemoteAddr | stampInbound | raceHandlerWithStop
+  | writeResponse | finishSend | awaitStopped | returnOk
+  | openBi | frameSend | frameRecv | writeRequest | readResponse | stampResponsePeerId | returnResponse
+  deriving DecidableEq, Repr, Inhabited
+
+/-- the clauses of the eligibility filter of the connectivity check -/
+inductive EligClause where
+  | isHigh | notSelf | hasAddress | notConnected | noPendingDial | pastBackoffStrict | pastBackoffLax
+  deriving DecidableEq, Repr, Inhabited
+
+/-- which set's size is subtracted from `max_concurrent_outstanding_connecting_connections` -/
+inductive BudgetArg where
+  | pendingConnections | pendingDials
   deriving DecidableEq, Repr, Inhabited
 
 /-- the effects `ActivePeersInner::add` performs, in source order (the generated lists are made of these) -/
